@@ -10,6 +10,7 @@ from common import Result, log
 
 STALL_S = 12          # a single CALL may take this long at most (budget of the property: "a small time"); the harness writes a heartbeat after calls
 MEM_BYTES = 6 * 1024 ** 3
+MAX_HANGS = 6         # stop a family after this many hanging / dying maps
 
 
 def limits():
@@ -47,6 +48,15 @@ def run_slices(binp, scen, n, c09, nproc, label, random_family=False):
     active = [s for s in state if s["proc"]]
     while active:
         time.sleep(0.25)
+        if len(hangs) >= MAX_HANGS:
+            # enough evidence: every further hang costs STALL_S seconds and a restart
+            for s in active:
+                s["proc"].kill()
+                s["proc"].wait()
+                for f in (s["prog"], s["out"]):
+                    if f and os.path.exists(f):
+                        os.remove(f)
+            break
         for s in list(active):
             rc = s["proc"].poll()
             cur = s["cur"]
